@@ -166,6 +166,47 @@ def shard(ctx):
                 ctx.violation("documented-form:literal-on-the-left:verdict", "`%s` gives %s, `%s` gives %s" % (form, sa_, mirror, sb_), {"rules": a_, "data": ldoc, "ast": None})
             else:
                 ctx.res.distinct.add(("literal-on-the-left", form))
+    # ---------------------------------------------------------------- filters on SCALAR elements (`ports[*][ this > 1024 ] <= 65535`; docs/QUERY_AND_FILTERING.md):
+    # inside the filter `this` is the element; the clause then judges the selected elements (nothing selected -> SKIP). Small model in place.
+    if ctx.mine(1):
+        import operator as _op
+        CMP = {">": _op.gt, ">=": _op.ge, "<": _op.lt, "<=": _op.le, "==": _op.eq, "!=": _op.ne}
+        sdocs = [[80, 8080, 70000], [80], 8080, [2000, 3000], [1024, 1025], 70000, [5, 5, 5], 0]
+        for lv in sdocs:
+            elems = lv if isinstance(lv, list) else [lv]
+            sdoc = json.dumps({"spec": {"ports": lv}})
+            lines, expect = [], {}
+            k = 0
+            for fop, fth in ((">", 1024), ("<=", 80), ("==", 5), ("!=", 8080), (">=", 70000)):
+                for cop, cth in (("<=", 65535), ("==", 8080), (">", 100), ("!=", 5)):
+                    for some in (False, True):
+                        for star in ("[*]", "") if isinstance(lv, list) else ("[*]",):
+                            name = "f%d" % k
+                            k += 1
+                            lines.append("rule %s {\n    %sspec.ports%s[ this %s %d ] %s %d\n}\n" % (name, "some " if some else "", star, fop, fth, cop, cth))
+                            sel = [x for x in elems if CMP[fop](x, fth)]
+                            if not sel:
+                                expect[name] = "SKIP"
+                            elif some:
+                                expect[name] = "PASS" if any(CMP[cop](x, cth) for x in sel) else "FAIL"
+                            else:
+                                expect[name] = "PASS" if all(CMP[cop](x, cth) for x in sel) else "FAIL"
+            text = "".join(lines)
+            st, _fs, _r = tool_statuses(ctx.w, text, sdoc)
+            ctx.res.cases += len(lines)
+            ctx.res.counts["scalar_filter_clauses"] += len(lines)
+            if not isinstance(st, dict):
+                ctx.inconclusive("scalar-filter-gadget:" + str(st))
+                continue
+            bad = {n_: (st.get(n_), e_) for n_, e_ in expect.items() if st.get(n_) != e_}
+            if bad:
+                n0 = sorted(bad)[0]
+                ctx.violation("scalar-filter:this-is-the-element", "filter on scalar elements: %d of %d clauses differ from the model, e.g. %s tool=%s model=%s on %s" % (
+                    len(bad), len(expect), [l for l in lines if l.startswith("rule %s " % n0)][0].replace("\n", " "), bad[n0][0], bad[n0][1], sdoc),
+                    {"rules": text, "data": sdoc, "ast": None, "expect": expect})
+            else:
+                for e_ in set(expect.values()):
+                    ctx.res.distinct.add(("scalar-filter", type(lv).__name__, e_))
     # ---------------------------------------------------------------- (B) random programs
     rng = ctx.rng("c01")
     n = 330 if ctx.quick else 60000
@@ -245,6 +286,12 @@ def flush(ctx, items, di):
 
 
 def replay(case, w):
+    if case.get("ast") is None and case.get("expect"):
+        st, fs, res = tool_statuses(w, case["rules"], case["data"])
+        if not isinstance(st, dict):
+            return False, str(st)
+        bad = {k: (st.get(k), v) for k, v in case["expect"].items() if st.get(k) != v}
+        return not bad, "differences (tool, model): %s" % dict(sorted(bad.items())[:5])
     if case.get("ast") is None:
         st, fs, res = tool_statuses(w, case["rules"], case["data"])
         return isinstance(st, dict), "the documented form %s" % ("evaluates" if isinstance(st, dict) else "is rejected: " + str(st))
